@@ -20,6 +20,12 @@ type Mutation {
 }
 type Subscription {
   watch(topic: String, sid: Int!): Event!
+  watchAny(topic: String, sid: Int!): Happening!
+}
+union Happening = Event | Notice
+type Notice {
+  id: Int
+  text: String
 }
 type Event {
   id: Int
@@ -60,6 +66,53 @@ var SubSelections = []struct {
 	{"{ ...F }", func(id int) string { return `{"tag":"t` + strconv.Itoa(id) + `"}` }, "fragment F on Event { tag }"},
 	{"{ ... on Event { id } ... { tag } }", func(id int) string { return `{"id":` + strconv.Itoa(id) + `,"tag":"t` + strconv.Itoa(id) + `"}` }, ""},
 	{"{ id @skip(if: true) msg @include(if: true) }", func(id int) string { return `{"msg":"m` + strconv.Itoa(id) + `"}` }, ""},
+}
+
+// SubUnionSelections are the selections of subscribers of the union-typed
+// subscription field, with the expected message per member.
+var SubUnionSelections = []struct {
+	Sel    string
+	Event  func(id int) string
+	Notice func(id int) string
+}{
+	{"{ __typename ... on Event { id } ... on Notice { text } }",
+		func(id int) string { return `{"__typename":"Event","id":` + strconv.Itoa(id) + `}` },
+		func(id int) string { return `{"__typename":"Notice","text":"n` + strconv.Itoa(id) + `"}` }},
+	{"{ ... on Notice { id text } ... on Event { msg } }",
+		func(id int) string { return `{"msg":"m` + strconv.Itoa(id) + `"}` },
+		func(id int) string { return `{"id":` + strconv.Itoa(id) + `,"text":"n` + strconv.Itoa(id) + `"}` }},
+	{"{ __typename }",
+		func(id int) string { return `{"__typename":"Event"}` },
+		func(id int) string { return `{"__typename":"Notice"}` }},
+}
+
+// Notice is the second member of the union of events.
+type Notice struct {
+	ID   int
+	Text string
+}
+
+// NoticeEvent tells whether event n of a union world is a Notice.
+func NoticeEvent(n int) bool { return n%3 == 1 }
+
+// Expect is the message subscriber sb must receive for event n in this world;
+// resolveErr tells whether applying the selection hits a field that does not
+// resolve.
+func (w *SubWorld) Expect(sb *SimSub, n int) (msg string, resolveErr bool) {
+	bad := w.BadEvents && BadEvent(n)
+	if !w.UnionEvents {
+		return ExpectFor(sb.SelIndex, n, bad)
+	}
+	us := SubUnionSelections[sb.SelIndex%len(SubUnionSelections)]
+	if NoticeEvent(n) {
+		return us.Notice(n), false
+	}
+	msg = us.Event(n)
+	good := `"msg":"m` + strconv.Itoa(n) + `"`
+	if bad && strings.Contains(msg, good) {
+		return strings.Replace(msg, good, `"msg":null`, 1), true
+	}
+	return msg, false
 }
 
 // Event is the reflection flavour of a published event.
@@ -206,6 +259,10 @@ type SubWorld struct {
 	Subs map[int]*SimSub
 	// ResolverEvents chooses the event flavour published through the mutation.
 	ResolverEvents bool
+	// UnionEvents: every subscriber subscribes to the union-typed field and the
+	// published events are of two Go types (members of the union), reflection
+	// flavour only.
+	UnionEvents bool
 	// BadEvents makes the msg field of the events with BadEvent(n) fail to
 	// resolve (resolver error / value that cannot be coerced to String).
 	BadEvents bool
@@ -309,9 +366,14 @@ func (w *SubWorld) Subscribe(sid int) string {
 		sidText = "$sid"
 		vars = map[string]interface{}{"sid": sid}
 	}
-	req := op + " { " + field + "(topic: " + topic + ", sid: " + sidText + ") " + SubSelections[s.SelIndex].Sel + " }"
-	if f := SubSelections[s.SelIndex].Frag; f != "" {
-		req += "\n" + f
+	sel, frag := SubSelections[s.SelIndex].Sel, SubSelections[s.SelIndex].Frag
+	if w.UnionEvents {
+		field = strings.Replace(field, "watch", "watchAny", 1)
+		sel, frag = SubUnionSelections[s.SelIndex%len(SubUnionSelections)].Sel, ""
+	}
+	req := op + " { " + field + "(topic: " + topic + ", sid: " + sidText + ") " + sel + " }"
+	if frag != "" {
+		req += "\n" + frag
 	}
 	return CanonLite(w.Root.ResolveString(req, "", vars))
 }
@@ -335,6 +397,16 @@ func (w *SubWorld) SubscriptionDoc(selIndex int, topic string) (src, op string) 
 func (w *SubWorld) Publish(topic string, n int) (int, error) {
 	var ev interface{}
 	bad := w.BadEvents && BadEvent(n)
+	if w.UnionEvents {
+		if NoticeEvent(n) {
+			return w.Root.AddEvent(topic, &Notice{ID: n, Text: "n" + strconv.Itoa(n)})
+		}
+		e := NewEvent(n)
+		if bad {
+			e.Msg = unprintable{n}
+		}
+		return w.Root.AddEvent(topic, e)
+	}
 	if w.ResolverEvents {
 		ev = &EvRes{ID: n, Bad: bad}
 	} else {
